@@ -159,7 +159,7 @@ def cases(rng, tier, shard, nshards):
             continue
         kind, lines = gen_doc(rng, nmax)
         cfg = {"version": rng.choice([None, None, "gfa1", "gfa2"]),
-               "dialect": rng.choice(["standard", "standard", "standard", "rgfa"]),
+               "dialect": rng.choice(["standard", "standard", "standard", "rgfa", None]),
                "vlevel": rng.choice([1, 1, 2, 3, 0]), "entry": rng.choice(["list", "str", "file"])}
         if len(lines) <= nmax + 1:
             yield dict(cfg, kind=kind, lines=lines, mode="all")
@@ -355,7 +355,7 @@ def run(case, ctx):
     lines = case["lines"]
     expl = case["version"]
     v, why = D.infer_version(lines, expl)
-    doc_verdict = D.recognise_doc(lines, expl, case["dialect"])
+    doc_verdict = D.recognise_doc(lines, expl, case["dialect"] or "standard")
     if case["dialect"] == "rgfa":
         # the dialect requires gfa1: a document that is (or is declared) gfa2 contradicts it
         if v == "gfa2" or expl == "gfa2":
